@@ -46,10 +46,15 @@ class TdmsTimestamp(object):
             fractions_per_step = _fractions_per_step[resolution]
         except KeyError:
             raise ValueError("Unsupported resolution for converting to numpy datetime64: '{0}'".format(resolution))
+        if resolution in _steps_per_second:
+            # Exact integer arithmetic, truncating to a whole number of steps
+            steps = ((int(self.second_fractions) + _fraction_tolerance) * _steps_per_second[resolution]) >> 64
+        else:
+            steps = self.second_fractions / fractions_per_step
         return (
                 EPOCH +
                 np.timedelta64(self.seconds, 's') +
-                ((self.second_fractions / fractions_per_step) * np.timedelta64(1, resolution)))
+                (steps * np.timedelta64(1, resolution)))
 
     def as_datetime(self):
         """ Convert this timestamp to a Python datetime.datetime object
@@ -123,11 +128,35 @@ class TimestampArray(np.ndarray):
             fractions_per_step = _fractions_per_step[resolution]
         except KeyError:
             raise ValueError("Unsupported resolution for converting to numpy datetime64: '{0}'".format(resolution))
+        second_fractions = self['second_fractions']
+        if resolution in _steps_per_second:
+            # Compute ((second_fractions + tolerance) * steps_per_second) >> 64 exactly,
+            # multiplying the high and low 32 bits separately so that nothing overflows 64 bits.
+            steps_per_second = np.uint64(_steps_per_second[resolution])
+            shift = np.uint64(32)
+            high = second_fractions >> shift
+            low = (second_fractions & np.uint64(0xFFFFFFFF)) + np.uint64(_fraction_tolerance)
+            steps = (high * steps_per_second + ((low * steps_per_second) >> shift)) >> shift
+            fraction_deltas = steps.astype('timedelta64[{0}]'.format(resolution))
+        else:
+            fraction_deltas = (second_fractions / fractions_per_step) * np.timedelta64(1, resolution)
         return (
                 EPOCH +
                 self['seconds'] * np.timedelta64(1, 's') +
-                (self['second_fractions'] / fractions_per_step) * np.timedelta64(1, resolution))
+                fraction_deltas)
 
+
+# Resolutions that are converted using integer arithmetic (steps per second must be below 2 ** 32)
+_steps_per_second = {
+    's': 1,
+    'ms': 10 ** 3,
+    'us': 10 ** 6,
+    'ns': 10 ** 9,
+}
+
+# Fractions are truncated to a whole number of steps, after adding 2 ** -52 seconds (the precision of
+# a double) to allow for fractions that were computed with floating point arithmetic and rounded down.
+_fraction_tolerance = 2 ** 12
 
 _fractions_per_step = {
     's': 1.0 / 2 ** -64,
